@@ -34,7 +34,6 @@ Templates == <<
 
 Init == /\ b \in { [ver |-> v, hasprimary |-> hp, primary |-> U1, hasmanifest |-> hm, manifest |-> U2, hassigs |-> FALSE, sigs |-> <<>>, exs |-> <<>>] :
                     v \in {"b1", "b2"}, hp \in BOOLEAN, hm \in BOOLEAN }
-        /\ (b.ver = "b1" => b.hasprimary)
         /\ done = FALSE
 Next == /\ ~done
         /\ \/ Len(b.exs) < MaxEx /\ \E t \in Tmpl : b' = [b EXCEPT !.exs = Append(b.exs, Templates[t])] /\ done' = FALSE
